@@ -63,11 +63,21 @@ def cases(ctx):
     for name in ("ico", "cyl", "box"):
         yield {"kind": "slice", "mesh": name, "normal": [0, 0, 1], "origin": [0, 0, -5], "scale": 1, "cap": True}
         yield {"kind": "multi_slice", "mesh": name, "planes": [[[0, 0, 1], [0, 0, -5]], [[1, 0, 0], [0.1, 0, 0]]], "cap": True}
+    # caps of prisms with convex / concave holes, every engine, generic pose (each half against its exact volume)
+    for poly in ("plain", "round_hole", "c_hole"):
+        for eng in ("earcut", "triangle", "manifold", None):
+            for frac in (0.25, 0.6):
+                yield {"kind": "cap_engines", "poly": poly, "engine": eng, "frac": frac, "pose": 3 if poly != "plain" else 0}
     for name in ("ico", "cyl"):
         for sc in (1, 3, 0.25):
             yield {"kind": "multiplane", "mesh": name, "normal": [0, 0, 1], "scale": sc, "heights": [-0.5, 0.0, 0.3, 0.7]}
     while True:
-        k = rng.choice(["section", "slice", "slice", "multiplane", "multi_slice", "subset"])
+        k = rng.choice(["section", "slice", "slice", "multiplane", "multi_slice", "subset", "cap_engines"])
+        if k == "cap_engines":
+            ctx.count("kind:" + k)
+            yield {"kind": k, "poly": rng.choice(["plain", "round_hole", "c_hole"]), "engine": rng.choice(["earcut", "triangle", "manifold", None]),
+                   "frac": rng.choice([0.1, 0.25, 0.5, 0.8]), "pose": rng.randrange(50)}
+            continue
         name = rng.choice(list(meshes()))
         n = list(rng.choice(normals))
         o = list(rng.choice(ORIGINS))
@@ -120,6 +130,33 @@ def run_case(c):
         o["min_side"] = float(np.dot(v2[f2].reshape(-1, 3) - org, n).min()) if len(f2) else 0.0
         v3, f3, _ = intersections.slice_faces_plane(V, F, -n, org)
         o["area_opp"] = float(trimesh.triangles.area(v3[f3]).sum()) if len(f3) else 0.0
+        return o
+    if k == "cap_engines":
+        from shapely.geometry import Polygon
+        polys = {"plain": Polygon([(0, 0), (6, 0), (6, 4), (0, 4)]),
+                 "round_hole": Polygon([(0, 0), (10, 0), (10, 10), (0, 10)], [[(4, 4), (6, 4), (6, 6), (4, 6)]]),
+                 "c_hole": Polygon([(0, 0), (10, 0), (10, 10), (0, 10)],
+                                   [[(2, 2), (8, 2), (8, 4), (4, 4), (4, 6), (8, 6), (8, 8), (2, 8)]])}
+        poly = polys[c["poly"]]
+        H = 3.0
+        prism = trimesh.creation.extrude_polygon(poly, H, engine="earcut")
+        T = np.eye(4)
+        if c["pose"]:
+            g = np.random.default_rng(c["pose"])
+            T = trimesh.transformations.random_rotation_matrix(rand=g.uniform(size=3))
+            T[:3, 3] = g.uniform(-2, 2, 3)
+        prism.apply_transform(T)
+        nrm = T[:3, :3] @ np.array([0.0, 0.0, 1.0])
+        org = T[:3, :3] @ np.array([0.0, 0.0, c["frac"] * H]) + T[:3, 3]
+        kw = {} if c["engine"] is None else {"engine": c["engine"]}
+        up = prism.slice_plane(org, nrm, cap=True, **kw)
+        dn = prism.slice_plane(org, -nrm, cap=True, **kw)
+        A, P = float(poly.area), float(poly.length)
+        o.update({"A": A, "P": P, "H": H,
+                  "up": {"volume": float(up.volume), "area": float(up.area), "watertight": bool(up.is_watertight),
+                         "winding": bool(up.is_winding_consistent)},
+                  "dn": {"volume": float(dn.volume), "area": float(dn.area), "watertight": bool(dn.is_watertight),
+                         "winding": bool(dn.is_winding_consistent)}})
         return o
     m = meshes()[c["mesh"]]
     if k in ("section", "subset"):
@@ -227,6 +264,20 @@ def oracle(c, o):
     if "err" in o:
         return {"kind": c["kind"], "fail": "raised", "err": o["err"], "mesh": c.get("mesh")}
     k = c["kind"]
+    if k == "cap_engines":
+        h_up, h_dn = (1 - c["frac"]) * o["H"], c["frac"] * o["H"]
+        for part, h in (("up", h_up), ("dn", h_dn)):
+            q = o[part]
+            sig = {"kind": k, "poly": c["poly"], "engine": c["engine"] or "default"}
+            if c["poly"] == "plain" and not (q["watertight"] and q["winding"]):
+                # the statement promises closed halves for convex solids only (earcut leaves T-junctions on
+                # caps with holes: same volume and area, not edge-matched)
+                return dict(sig, check="capped-half-not-a-closed-solid")
+            if abs(q["volume"] - o["A"] * h) > 1e-8 * max(1.0, o["A"] * h):
+                return dict(sig, check="capped-half-volume-differs-from-exact")
+            if abs(q["area"] - (2 * o["A"] + o["P"] * h)) > 1e-8 * max(1.0, q["area"]):
+                return dict(sig, check="capped-half-area-differs-from-exact")
+        return None
     if k == "pattern":
         if o["min_side"] < -1e-12:
             return {"kind": k, "check": "slice-reaches-the-negative-side", "signs": c["signs"]}
@@ -368,4 +419,4 @@ def compare(c, o, m):
 
 
 def nontrivial(c, o):
-    return "err" not in o and (o.get("nlines", 0) > 0 or o.get("cuts") or o.get("nfaces", 0) > 0 or "sections" in o)
+    return "err" not in o and ("up" in o or o.get("nlines", 0) > 0 or o.get("cuts") or o.get("nfaces", 0) > 0 or "sections" in o)
